@@ -33,6 +33,15 @@ theorem exact (past : List Op) (hp : ∀ op ∈ past, op.Valid) (m : Bytes) (hm 
   · rw [grun_eq, scanner_default, h1]; rfl
   · rw [feed, scanner_gscanner, h2]; rfl
 
+/-- C11, data independence, for the translated scanner: relabelling the value bytes of every Control Change of the
+    history and of the input by any `f` (into 0..127) sends the reported message through `relabelMsg f`. -/
+theorem data_independent (f : Nat → Nat) (hf : ∀ v, v < 128 → f v < 128)
+    (past : List Op) (hp : ∀ op ∈ past, op.Valid) (m : Bytes) (hm : m.Valid) :
+    ∃ s s', grun default (past.map (relabelOp f)) = .ok (expectedPN [] (past.map (relabelOp f)), s) ∧
+      s.feed rawImpl (relabelB f m) = .ok ((justifiedPN past m).map (relabelMsg f), s') := by
+  rw [← C11.data_independent f past hp m hm]
+  exact exact _ (relabel_valid f hf past hp) _ (relabelB_valid f hf m hm)
+
 /-- C10 for the translated scanner: after ANY history, feeding the encoding of any message the scanner can
     reconstruct reports nothing until the last Control Change and exactly the original message on it -/
 theorem roundtrip (past : List Op) (hp : ∀ op ∈ past, op.Valid) (m : PNMsg) (hm : m.Valid) (order : ByteOrder)
